@@ -1123,7 +1123,10 @@ class FoldConstantsPass(ir.passes.InPlacePass):
                         )
                         # NOTE: forward shape inference
                         output.shape = _merge_shapes(output.shape, inferred_shape)
-                        output.type = ir.serde.deserialize_type_proto_for_type(inferred_type)
+                        inferred = ir.serde.deserialize_type_proto_for_type(inferred_type)
+                        if inferred is not None:
+                            # Inference may return an empty type: keep a known type then
+                            output.type = inferred
             except Exception as e:
                 logger.debug(
                     "Skipping shape inference for node %r due to exception: %s",
